@@ -256,6 +256,8 @@ fn cols_body<O: flatcontainer::impls::index::IndexContainer<usize>>(v: &[u64]) {
             vassert!(got.len() == want.len(), "VF:columns.row.len");
             vassert!(got.is_empty() == want.is_empty(), "VF:columns.row.is_empty");
             vassert!(got.iter().eq(want.iter().copied()), "VF:columns.row.iter");
+            vassert!(got.iter().nth(want.len()).is_none() && got.iter().count() == want.len(), "VF:columns.row.iter_past_end");
+            vassert!(got.iter().len() == want.len(), "VF:columns.row.iter_exact_size");
             for c in 0..want.len() {
                 vassert!(got.get(c) == want[c], "VF:columns.row.get");
             }
